@@ -5,7 +5,7 @@ import os
 import subprocess
 import sys
 
-WT = '/tmp/wt/mine'
+WT = os.environ.get('SEEDS_WT', '/tmp/wt/mine')
 M = [
  ('C01-succ-mirror', 'C01', 'src/pjplan/task.py',
   "        for v in self.__predecessors:\n            if self in v.__successors:\n                v.__successors.remove(self)\n",
